@@ -897,6 +897,24 @@ func (l *lemmas) nilOriginOK(s panicSite, o Origin) (bool, string) {
 			return false, "range key/value of a collection whose elements are not known to be non-nil"
 		}
 	case *ssa.Lookup:
+		// m[k] for the key k that a scan of the same, unchanged map yields: the scan's element
+		if f, _, isL := loadedField(x.X); isL && !x.CommaOk {
+			if ke, isE := stripConv(x.Index).(*ssa.Extract); isE && ke.Index == 1 {
+				if nx, isN := ke.Tuple.(*ssa.Next); isN {
+					if rng, isR := nx.Iter.(*ssa.Range); isR {
+						ensureEquiv(fn)
+						if kstr(rng.X) == kstr(x.X) {
+							if f == "gcpBalancer.scRefs" || f == "gcpBalancer.refreshingScRefs" {
+								r := l.slotsNonNil()
+								return r.ok, "element under the key of the " + lastDot(f) + " iteration: " + r.why
+							}
+							r := l.collectionNonNil(f, 2)
+							return r.ok, "element under the key of a range over " + f + ": " + r.why
+						}
+					}
+				}
+			}
+		}
 		if f, _, isL := loadedField(x.X); isL && f == "gcpBalancer.scRefs" {
 			// scRefs[k] with k known present in scStates: key agreement + non-nil slots
 			if kr := l.keysAgree(); kr.ok {
